@@ -53,7 +53,7 @@ func (e *Explore) Run(exec func(Config) *Execution, visit func(*Execution) bool)
 		}
 		nd := stack[len(stack)-1]
 		stack = stack[:len(stack)-1]
-		x := exec(Config{Prefix: nd.prefix, Seen: seen, Bound: e.Bound, BaseOrder: e.BaseOrder, Fp: e.Count, Horizon: e.Horizon})
+		x := exec(Config{Prefix: nd.prefix, Seen: seen, Bound: e.Bound, BaseOrder: e.BaseOrder, Fp: e.Count, Horizon: e.Horizon, FastBase: e.Bound == 0 && !e.Count && !e.Prune})
 		e.Execs++
 		e.Points += len(x.Choices)
 		e.Transitions += x.Steps
